@@ -300,3 +300,43 @@ package boltz
 //@   modifies b.Err, bktHas[b.Bucket], bktVal[b.Bucket]
 //@   ensures[unselected-field-untouched] fc != nil && !fcUpd(fc, name) && (str_len(old(cell(b, other))) == 0 || tagOf(old(cell(b, other))) == TypeString || tagOf(old(cell(b, other))) == TypeNil) ==> (result0 == nil) == (result1 == nil) && (result0 != nil ==> *result0 == *result1)
 //@   ensures[other-fields-untouched] other != name && (str_len(old(cell(b, other))) == 0 || tagOf(old(cell(b, other))) == TypeString || tagOf(old(cell(b, other))) == TypeNil) ==> (result0 == nil) == (result1 == nil) && (result0 != nil ==> *result0 == *result1)
+
+// ---- compound keys (encode.go) ----
+// encOne(v): varint length then the bytes; encFrom(a, i, n): the concatenated encodings of a[i..n)
+//@ spec encOne(v Str) Str = (str_concat (uvar (str_len v)) v)
+//@ spec encFrom(a (Array Int Str), i Int, n Int) Str
+//@ axiom encFrom_done: (forall ((a (Array Int Str)) (i Int) (n Int)) (! (=> (>= i n) (= (encFrom a i n) str_empty)) :pattern ((encFrom a i n))))
+//@ axiom encFrom_step: (forall ((a (Array Int Str)) (i Int) (n Int)) (! (=> (< i n) (= (encFrom a i n) (str_concat (encOne (select a i)) (encFrom a (+ i 1) n)))) :pattern ((encFrom a i n))))
+// one decoding step on a buffer s
+//@ define decOk(s) = uvarRead(s) >= 1 && uvarVal(s) <= MaxLinkedSetKeySize && str_len(s) - uvarRead(s) >= uvarVal(s)
+//@ define decFirst(s) = str_sub(s, uvarRead(s), uvarRead(s) + uvarVal(s))
+//@ define decRest(s) = str_sub(s, uvarRead(s) + uvarVal(s), str_len(s))
+//@ func EncodeByteSlice
+//@   props C13
+//@   pure
+//@   ensures[too-long-is-an-error] (result1 != nil) == (len(value) > MaxLinkedSetKeySize)
+//@   ensures[length-then-bytes] result1 == nil ==> str(result0) == encOne(str(value))
+//@ func EncodeStringSlice
+//@   props C13
+//@   pure
+//@   ensures[concatenation] result1 == nil ==> str(result0) == encFrom(arr(values), 0, len(values)) && forall(k, 0 <= k && k < len(values) ==> len(values[k]) <= MaxLinkedSetKeySize)
+//@   ensures[too-long-is-an-error] result1 != nil ==> exists(k, 0 <= k && k < len(values) && len(values[k]) > MaxLinkedSetKeySize)
+//@   invariant 1: str_concat(str(compoundKey), encFrom(arr(values), rangeindex + 1, len(values))) == encFrom(arr(values), 0, len(values)) && forall(k, 0 <= k && k <= rangeindex ==> len(values[k]) <= MaxLinkedSetKeySize)
+//@ func DecodeNext
+//@   props C13
+//@   pure
+//@   ensures[error-iff-malformed] (result2 == nil) == decOk(str(val))
+//@   ensures[first-and-rest] result2 == nil ==> str(result0) == decFirst(str(val)) && str(result1) == decRest(str(val))
+//@ func DecodeStringSlice
+//@   props C13
+//@   pure
+//@   ensures[decodes-every-encoding] forallStrArr(a, forall(n, n >= 0 && str(compoundKey) == encFrom(a, 0, n) && forall(k, 0 <= k && k < n ==> str_len(sel(a, k)) <= MaxLinkedSetKeySize) ==> result1 == nil && len(result0) == n && forall(k, 0 <= k && k < n ==> result0[k] == sel(a, k))))
+//@   invariant 1: forallStrArr(a, forall(n, n >= 0 && str(compoundKey) == encFrom(a, 0, n) && forall(k, 0 <= k && k < n ==> str_len(sel(a, k)) <= MaxLinkedSetKeySize) ==> len(result) <= n && str(local(compoundKey)) == encFrom(a, len(result), n) && forall(k, 0 <= k && k < len(result) ==> result[k] == sel(a, k))))
+//@ func verifRoundTripCompound
+//@   props C13
+//@   pure
+//@   ensures[list-reads-back] forall(k, 0 <= k && k < len(values) ==> len(values[k]) <= MaxLinkedSetKeySize) ==> result1 == nil && len(result0) == len(values) && forall(k, 0 <= k && k < len(values) ==> result0[k] == values[k])
+//@ func verifCompoundInjective
+//@   props C13
+//@   pure
+//@   ensures[equal-encodings-equal-lists] result ==> len(a) == len(b) && forall(k, 0 <= k && k < len(a) ==> a[k] == b[k])
